@@ -26,6 +26,15 @@ CHECKS = {
          "TLC-judged exhaustive replay against the TLA+ iteration contract", "5 C09", "bounded haystack length"),
  "C13": (MC, "On every all-ASCII haystack of every enumerated case the four ASCII variants (both executors, both pipelines) are compared with their UTF-8 counterparts from every start offset; the UTF-8 side is itself judged by TLC against ESSem.",
          "TLC-judged exhaustive replay, ASCII vs UTF-8 entry points", "5 C13", "patterns mention non-ASCII characters and fold partners; haystacks are ASCII by the property's premise"),
+ "C04": (MC, "The start predicate the compiler actually derived is taken from the program dump and TLC checks that it admits every character boundary at which the BacktrackVM specification's anchored attempt on that program succeeds (all offsets, also after the first match); the hook rebuilds each program with StartPredicate::Arbitrary and the full match sequences from every start offset are compared on both executors.",
+         "TLC model checking of the dumped start predicate against the BacktrackVM spec + differential replay with the predicate removed", "5 C04",
+         "the dumped predicate is the one the executor uses; utf16 builds (prefilter disabled) are covered by C15"),
+ "C16": (MC, "MatchAPI.tla defines every accessor as a function of (range, captures, names); TLC judges the recorded accessor values of every match of the enumerated named / duplicate-named / capture families against it, with names numbered by the specification.",
+         "TLC-judged exhaustive replay against the MatchAPI TLA+ specification", "5 C16", "captures themselves are judged by C01"),
+ "C17": (EX, "Replace.tla specifies the template language and splice-and-expand; TLC enumerates all templates up to length 4/5 over the scanner's symbol alphabet for six regexes and judges all four replace functions.",
+         "TLC-enumerated templates, TLC-judged outputs against the Replace TLA+ specification", "5 C17", "the match sequence is the engine's own (C01/C09); digit runs are parsed maximally"),
+ "C18": (EX, "TLC enumerates all short strings over an alphabet with every syntax character; escape(s) must only insert backslashes, compile under all 12 flag sets, and match exactly like the literal AST under ESSem.",
+         "TLC-enumerated strings, TLC-judged against Escape.tla / ESSem", "5 C18", "strings up to length 2-3"),
 }
 
 NA = {}
